@@ -153,4 +153,7 @@ SUBCHECKS = [
              rule="stratified sweeps: two meridians walked through the latitude band and two parallels through the longitudes (automatic "
                   "zones / offsets of -30..30 deg from an explicit zone's meridian) on a lattice of 40 000 (quick; 455 m of latitude) or "
                   "640 000 points per line, lines fixed by the seed: any latitude / longitude slab wider than the spacing is crossed"),
+    SubCheck("quasi_random_fill", check_position, enumerate=T.geo_fill(100000, 2000000), nontrivial=_nt, classes=T.tm_classes,
+             shards_quick=12, shards_thorough=16,
+             rule="low-discrepancy (Halton, seeded shift) fill of latitude x longitude / zone x offset x ellipsoid x projection: 100 000 / 2 000 000 points"),
 ]
